@@ -101,7 +101,7 @@ def gen_foreach(rng, p):
                               ['add', name('lst'), ['list', [['int', 9]]]]]))
     if r < 0.85:
         return {'d': [['k1', 1], ['k2', 2]]}
-    if r < 0.90:
+    if r < 0.88:
         return rng.choice([3, '{n}'])           # not iterable -> TypeError
     return {'l': ['{word}', '{n}', 'lit']}       # items are formatted with the list
 
@@ -207,7 +207,8 @@ def gen_step(rng, p, pipe, group, idx, targets, handlers, later_pipes, depth_tag
     if rng.random() < p['p_swallow']:
         st['swallow'] = gen_bool_expr(rng, loops) if rng.random() < 0.5 else True
     if rng.random() < p['p_onerror']:
-        st['onError'] = rng.choice(['custom {n}', {'d': [['code', 7], ['at', '{word}']]}, '{missing_key}', 0, ''])
+        st['onError'] = rng.choice(['custom {n}', {'d': [['code', 7], ['at', '{word}']]}, 'plain', '{word}',
+                                    {'l': ['{n}', 1]}, '{missing_key}' if rng.random() < 0.4 else 'x', 0, ''])
     inn = [['ptag', tag]]
     if rng.random() < 0.5:
         inn.append(['pwatch', {'l': rng.sample(['cnt', 'flag', 'arg1', 'call', 'out1', 'i', 'set', 'word', 'shared'],
@@ -217,7 +218,8 @@ def gen_step(rng, p, pipe, group, idx, targets, handlers, later_pipes, depth_tag
     if rng.random() < 0.1:
         inn.append([rng.choice(['cnt', 'flag', 'word']), rng.choice([5, True, 'over'])])   # overrides
     if body == 'fail':
-        cfg = [['err', rng.choice(ERRS)], ['msg', rng.choice(['boom', 'failed at {ptag}', 'i={i}', 'x'])]]
+        cfg = [['err', rng.choice(ERRS)],
+               ['msg', rng.choice(['boom', 'failed at {ptag}', 'i={i}' if 'foreach' in loops else 'n={n}', 'x'])]]
         if rng.random() < p['p_fail_when']:
             conds = [['cmp', 'lt', name('cnt'), ['int', rng.choice([1, 2])]], name('flag'), ['not', name('flag')]]
             if 'retry' in loops:
@@ -331,12 +333,12 @@ def gen_case(rng, profile=None):
     dict_in = [['flag', rng.choice([True, False])], ['nflag', rng.choice([True, False])],
                ['sflag', rng.choice(['true', 'false', 'True', '0', '1'])], ['n', rng.choice([1, 2, 3])],
                ['lst', {'l': rng.choice([[1, 2], ['a', 'b'], [2, 'b', 3], []])}], ['empty', {'l': []}],
-               ['cnt', 0], ['grp', rng.choice(['gz', 'gz', 'gz', 'nogroup'])],
+               ['cnt', 0], ['grp', 'nogroup' if rng.random() < 0.07 else 'gz'],
                ['word', rng.choice(['abc', 'x y', 'true'])], ['tup', {'t': ['t1', 't2']}],
                ['bo', rng.choice(['fixed', 'linear'])],
                ['nl', rng.choice(['true\n', '1\n', 'True\n', '1.0\n', 'false\n'])]]
     case = {'lib': lib, 'main': 'main', 'dict_in': dict_in, 'jit': rng.choice([[1, 4], [0, 1], [1, 1], [1, 2]])}
-    if rng.random() < 0.08:
+    if rng.random() < 0.04:
         case['dict_in'] = None
     if rng.random() < 0.12:
         case['args_in'] = rng.choice([['fail'], ['a', 'b'], ['none'], [], ['x=1', 'fail']])
